@@ -143,6 +143,87 @@ def typed_faults(g):
             yield "typed:%s:%s" % (kind, name), R.encode(lm), cname
 
 
+def hostile_texts():
+    """text whose *shape* is hostile to a validating grammar (long runs of legal characters closed by an illegal one, nested
+    separators): the time a decode takes may depend on the input's length, not on how a pattern matcher backtracks over it"""
+    out = []
+    for k in (12, 20, 26, 32, 44, 63, 120):
+        out += [("label-run-%d-bad-tail" % k, b"aaa://" + b"a" * k + b"!"),
+                ("dotted-run-%d-bad-tail" % k, b"aaas://" + b"ab." * (k // 3) + b"!"),
+                ("dash-run-%d" % k, b"aaa://" + b"a-" * (k // 2) + b"\n"),
+                ("digit-labels-%d" % k, b"aaa://" + b"1." * (k // 2) + b"x!"),
+                ("port-run-%d" % k, b"aaa://host.example.com:" + b"9" * k + b";"),
+                ("params-run-%d" % k, b"aaa://host.example.com:3868;transport=" + b"t" * k + b"!;protocol=" + b"p" * k + b"!"),
+                ("semicolons-%d" % k, b"aaa://host.example.com" + b";" * k),
+                ("bare-run-%d" % k, b"a" * k + b"!"),
+                ("blank-run-%d" % k, b" " * k + b"x" + b" " * k + b"!"),
+                ("session-like-%d" % k, b"a;" * k + b"!")]
+    return out
+
+
+def cpu_bounded_decodes(acc, cases, cpu_s=4.0):
+    """Each decode runs in a forked child whose CPU-time limit (RLIMIT_CPU, soft) is re-armed before every case to
+    `cpu_s` seconds above what the child has used so far: CPU seconds consumed, not wall-clock time, decide - a loaded machine
+    does not change them.  An ordinary decode of these inputs (<= 1 KB) takes well under a millisecond, so the bound is a
+    factor of several thousand.  A child killed by SIGXCPU names the case it was working on; it is restarted behind it."""
+    import os, resource, signal, struct
+    i = 0
+    while i < len(cases):
+        rfd, wfd = os.pipe()
+        pid = os.fork()
+        if pid == 0:
+            try:
+                os.close(rfd)
+                from bromelia.base import DiameterMessage
+                for j in range(i, len(cases)):
+                    ru = resource.getrusage(resource.RUSAGE_SELF)
+                    used = ru.ru_utime + ru.ru_stime
+                    hard = resource.getrlimit(resource.RLIMIT_CPU)[1]
+                    resource.setrlimit(resource.RLIMIT_CPU, (int(used + cpu_s) + 1, hard))
+                    os.write(wfd, struct.pack(">Ib", j, 0))
+                    try:
+                        DiameterMessage.load(cases[j][1])
+                        res = 1
+                    except BaseException as ex:
+                        res = 2 if type(ex).__module__ == "bromelia.exceptions" else 3
+                    os.write(wfd, struct.pack(">Ib", j, res))
+            finally:
+                os._exit(0)
+        os.close(wfd)
+        data = b""
+        while True:
+            chunk = os.read(rfd, 65536)
+            if not chunk:
+                break
+            data += chunk
+        os.close(rfd)
+        _, status = os.waitpid(pid, 0)
+        recs = [struct.unpack(">Ib", data[k:k + 5]) for k in range(0, len(data) - len(data) % 5, 5)]
+        finished = {j: res for j, res in recs if res}
+        started = [j for j, res in recs if not res]
+        for j, res in finished.items():
+            acc.evaluations += 1
+            acc.counters["cpu_bounded_decodes"] += 1
+            acc.sigs.add(harness.sig_hash("hostile-text/%s/%d" % (cases[j][0], res)))
+            if res == 3:
+                acc.observe("hostile-text-decode-leaks-a-foreign-exception:%s" % cases[j][0].split(":")[0])
+        last = started[-1] if started else i
+        if os.WIFSIGNALED(status) and last not in finished:
+            sig = os.WTERMSIG(status)
+            if sig in (signal.SIGXCPU, signal.SIGKILL):
+                acc.evaluations += 1
+                acc.violation("decoder-exceeds-cpu-bound", "load() of %d bytes (%s) used more than %.0f s of CPU time without returning (an ordinary decode of this size takes < 1 ms)" % (
+                    len(cases[last][1]), cases[last][0], cpu_s), {"fault": cases[last][0], "stream": cases[last][1].hex(), "signal": sig})
+            else:
+                acc.inconclusive.append("cpu-bounded decode child died with signal %d on %s" % (sig, cases[last][0]))
+            i = last + 1
+        elif last not in finished and not (os.WIFEXITED(status) and len(finished) and max(finished) == len(cases) - 1):
+            acc.inconclusive.append("cpu-bounded decode child ended early (status %r) at %s" % (status, cases[last][0]))
+            i = last + 1
+        else:
+            i = len(cases)
+
+
 # ------------------------------------------------------------------------------------------------ part B: live node
 
 DESYNC = {"garbage", "short-header-tail", "truncated-then-valid", "valid-then-garbage", "huge-declared-length"}
@@ -401,6 +482,18 @@ def run_batch(b):
                 decode(acc, guard, deeply_nested(depth, code, vendor), "deep-nesting:%d:depth%d" % (code, depth), {"depth": depth, "code": code})
                 acc.counters["deep_nesting_decodes"] += 1
         acc.sample({"typed_fault_example": fault})
+    elif b["kind"] == "hostile-text":
+        cases = []
+        rd = g.rd["avps"]
+        names = sorted(n for n, row in rd.items() if row["type"] in ("UTF8String", "DiameterIdentity", "DiameterURI"))
+        for cname in names[b["i"]::b["m"]]:
+            row = rd[cname]
+            for tname, text in hostile_texts():
+                lm = R.LMsg(1, 0x80, 316, 16777251, 1, 2, [R.LAvp(264, 0x40, None, b"peer.example.org"), R.LAvp(row["code"], row["flags"], row["vendor"], text)])
+                cases.append(("%s:%s:%s" % (row["type"], cname, tname), R.encode(lm)))
+        cpu_bounded_decodes(acc, cases)
+        acc.sample({"hostile_text_example": cases[0][0] if cases else None})
+        return acc
     elif b["kind"] == "random":
         for _ in range(b["n"]):
             L = r.choice([0, 1, 2, 3, 4, 5, 19, 20, 21, 24, 28, r.randrange(0, 257)])
@@ -429,6 +522,8 @@ def main(tier, seed):
     for i in range(14 if q else 48):
         batches.append({"kind": "structural", "n": 3 if q else 25, "level": 1 if q else 2, "seed": seed * 8191 + i})
     batches.append({"kind": "typed", "seed": seed})
+    for i in range(8):
+        batches.append({"kind": "hostile-text", "seed": seed, "i": i, "m": 8})
     for i in range(2 if q else 16):
         batches.append({"kind": "random", "n": 4000 if q else 40000, "seed": seed * 8191 + 500 + i})
     if not q:
@@ -456,9 +551,10 @@ def main(tier, seed):
     return harness.finish(PROP, tier, seed, "fault_enumeration", acc, RULE,
                           ["part A (decoder): step bound 4*len+64 loop iterations per decode call (both load loops); part B (live node): malformed bytes x connection states under the deterministic scheduler, judged by lock-owner, clean-close and responsiveness monitors",
                            "every library error derives from BaseException and lives in bromelia.exceptions",
-                           "memory growth is bounded by the iteration bound plus RLIMIT_AS on the worker"],
+                           "memory growth is bounded by the iteration bound plus RLIMIT_AS on the worker",
+                           "hostile text (long legal runs closed by an illegal character, nested separators) in every text-typed dictionary AVP is decoded in a child process under a CPU-time limit of 4 s per decode (RLIMIT_CPU: consumed CPU seconds, not wall-clock time)"],
                           t0, extra_cov={"sweep24_exhaustive": not q},
-                          require_counters=("decodes", "library_errors", "guard_armed", "node_scenarios", "stayed_responsive", "deep_nesting_decodes"))
+                          require_counters=("decodes", "library_errors", "cpu_bounded_decodes", "guard_armed", "node_scenarios", "stayed_responsive", "deep_nesting_decodes"))
 
 
 def replay(w):
